@@ -72,7 +72,9 @@ func Mv(r *Root, src, dst string) error {
 		return err
 	}
 
-	if srcDir.name == dstDir.name && srcFname == dstFname {
+	// Same location: compare the directories themselves, not their names
+	// (distinct directories in different parents may share a name).
+	if srcDir == dstDir && srcFname == dstFname {
 		return nil
 	}
 
